@@ -347,3 +347,9 @@ def run(ctx, res):
     for i in res.instances[before:]:
         if i.rule == 'R-C11-sanity':
             i.rule = 'R-C01-reparse'
+    # string literals are re-spelled from their decoded value by the same
+    # TokString.code the echo writers use: the escape transducer round trip
+    # (shared with C06) is a clause of "strings by decoded value"
+    from . import c06
+    from .. import leximpl
+    c06.rule_escapes(ctx, res, leximpl.LexerSource(ctx))
